@@ -23,11 +23,10 @@ Print Assumptions c09_finished_plan_runs_nothing.
 
 From Coercion.Resume Require Import Frame NoReexec ImgWf RepairSound C09Proofs.
 
-(* c09_no_reexecution, one crash.  For EVERY well-formed crash image I (ImgWf.img_wf: the hierarchy of statuses
+(* c09_no_reexecution, one crash.  For EVERY well-formed crash image I (ImgWf.img_wf0: the hierarchy of statuses
    every image the engine writes obeys - nothing Stopped, a NotStarted action has no attempt, the actions of a
-   NotStarted sequence and the sequences of a NotStarted block are NotStarted, no block Running when the plan's own
-   bypass group is Completed or its pre / post group Failed; a boolean, evaluated on every real crash image on every
-   run), every deviation flag and every trace tr the resumed automaton accepts from the repair of I:
+   NotStarted sequence and the sequences of a NotStarted block are NotStarted; a boolean; the correspondence evaluates
+   the stronger ImgWf.img_wf on every real crash image on every run), every deviation flag and every trace tr the resumed automaton accepts from the repair of I:
    mon_noreexec I tr = true, i.e. no EvStart of a sequence action that is Completed / Failed in I or that has ANY
    durable attempt (a success, a plugin's error or the engine's timeout error: "only actions durably Running without
    a durable result may be invoked again"), no EvStart at all inside a sequence or block that is Completed / Failed
@@ -39,11 +38,11 @@ From Coercion.Resume Require Import Frame NoReexec ImgWf RepairSound C09Proofs.
    well-formed); the correspondence checks img_wf on every real crash image, of uninterrupted runs AND of recoveries. *)
 Theorem c09_no_reexecution_partial :
   forall (d : devs) (sh : shape) (I : image) (tr : list event) (r0 r : rst),
-    (cst I OPlan = Running -> img_wf sh (dimg_of_image I) = true) ->
+    (cst I OPlan = Running -> img_wf0 sh (dimg_of_image I) = true) ->
     rinit sh (dimg_of_image I) (im_reason I) = Some r0 ->
     rrun d sh r0 tr = Some r ->
     mon_noreexec I tr = true.
-Proof. exact noreexec_of_wf. Qed.
+Proof. exact noreexec_of_wf0. Qed.
 Print Assumptions c09_no_reexecution_partial.
 
 (* crash_chain: any number of crashes.  Process i restarts on image im_i, does tr_i and crashes after k_i of its
@@ -52,17 +51,18 @@ Print Assumptions c09_no_reexecution_partial.
    every process is of work that the image THAT process restarted on shows unfinished (and its plan was Running). *)
 Theorem c09_crash_chain :
   forall (d : devs) (sh : shape) (steps : list (list event * nat)) (im : dimg) (rs : reason),
-    chain_accepted d sh im rs steps -> chain_wf sh im rs steps -> chain_noreexec sh im rs steps.
-Proof. exact crash_chain_noreexec. Qed.
+    chain_accepted d sh im rs steps -> chain_wf0 sh im rs steps -> chain_noreexec sh im rs steps.
+Proof. exact crash_chain_noreexec0. Qed.
 Print Assumptions c09_crash_chain.
 
 (* what the proof needs to know about the crash repair holds for every well-formed image: the link to coq/recover
    (fix_never_unfinishes, plan_processes_blocks, fix_seq_running_form, exec_seq_meets_contract) *)
 Theorem c09_repair_is_sound_on_wellformed_images :
   forall (sh : shape) (I : dimg),
-    img_wf sh I = true -> ist I OPlan = Running -> resumable_ok (pln_of sh I) = true ->
+    img_wf0 sh I = true -> ist I OPlan = Running -> resumable_ok (pln_of sh I) = true ->
     (forall fl b, block_of sh b <> None -> is_terminal (ist I (OBlock b)) = true -> is_terminal (blk_st sh I fl b) = true)
-    /\ (forall fl b q, seq_of sh b q <> None -> is_terminal (blk_st sh I fl b) = false -> ~ In (b, q) (resumed sh I) ->
+    /\ (forall fl b q, is_terminal (pln_st sh I fl) = false ->
+          seq_of sh b q <> None -> is_terminal (blk_st sh I fl b) = false -> ~ In (b, q) (resumed sh I) ->
           ~ cf (seq_st0 sh I b q) -> open_from sh I b q 0)
     /\ (forall b q, In (b, q) (resumed sh I) ->
           ist I (OBlock b) = Running /\ seq_of sh b q <> None /\ open_from sh I b q (first_open (pln_of sh I) b q)).
